@@ -383,6 +383,17 @@ def apply_model(sym, n, f, vals, mut_idx, st):
                 s = sym.write_place(st, pl, newv).eff(("assign", sym.place_term(pl), newv))
                 return [(s, (VAL, old))]
 
+    if sym.string_values and p in ("std::string::String::push_str", "std::string::String::push") and mut_idx == [0] and len(vals) == 2 \
+            and vals[0][0] == "place" and not vals[0][2]:
+        pl = sym.place_of(n["args"][0], st)
+        if pl is not None and pl[3] is None and not pl[2]:
+            old = sym.read_var({"id": pl[0], "name": pl[1]}, st)
+            if old[0] in ("format", "strcat", "lit") or (old[0] == "call" and old[1].endswith(("String::new", "concat", "to_string", "to_owned", "String::from"))):
+                s = st.copy()
+                s.n += 1
+                s.effects = s.effects + (("call", p, tuple(vals), s.n),)
+                s = sym.write_place(s, pl, ("strcat", old, vals[1]))
+                return [(s, (VAL, UNIT))]
     # OnceLock / OnceCell / LazyLock: the cell's value is what the initialiser returns (each rule that relies on this checks that
     # the cell is only ever reached through get_or_init)
     if re.match(r"^std::(sync|cell)::Once(Lock|Cell)(::<[^>]*>)?::get_or_init$", p) and len(vals) == 2 and vals[1][0] in ("closure", "fnref"):
